@@ -15,6 +15,7 @@ import (
 	"path/filepath"
 	"regexp"
 	"runtime"
+	"strings"
 	"sync"
 
 	"github.com/tdewolff/canvas"
@@ -86,6 +87,7 @@ func LoadBatch(file string) ([]Op, error) {
 
 // Env: what the calls share — ONE loaded font family (the property's "shared loaded font").
 type Env struct {
+	TextFamily *canvas.FontFamily // a second shared loaded font used ONLY for layout (never embedded by a renderer, so the known Subset mutation cannot reach it)
 	Family    *canvas.FontFamily
 	FontBytes []byte // a named font (DejaVuSerif)
 	Noname    []byte // the same font with name records 1, 4, 6 renumbered: LoadFont takes the nonameFonts path
@@ -101,8 +103,31 @@ func NewEnv(repo string) (*Env, error) {
 		return nil, err
 	}
 	e := &Env{Family: fam, FontBytes: b}
+	if e.TextFamily, err = FreshFamily(b); err != nil {
+		return nil, err
+	}
 	e.Noname = StripNames(b)
 	return e, nil
+}
+
+// FreshFamily loads a copy of the font that nothing else has used.
+func FreshFamily(b []byte) (*canvas.FontFamily, error) {
+	fam := canvas.NewFontFamily("dejavu-text")
+	if err := fam.LoadFont(b, 0, canvas.FontRegular); err != nil {
+		return nil, err
+	}
+	return fam, nil
+}
+
+// RunFresh runs a layout call with a freshly loaded copy of the font: the result of the call ALONE.
+func (op Op) RunFresh(env *Env) string {
+	fam, err := FreshFamily(env.FontBytes)
+	if err != nil {
+		return "error: " + err.Error()
+	}
+	e := *env
+	e.TextFamily = fam
+	return op.Run(&e)
 }
 
 // StripNames returns a copy of an SFNT font in which the name IDs 1, 4 and 6 are renumbered to
@@ -245,6 +270,19 @@ func (op Op) Run(env *Env) (res string) {
 		e.Close()
 		out += " ps:" + sum(psDate.ReplaceAll(b3.Bytes(), nil))
 		return out
+	case "RichText":
+		// S = runs "face:text" separated by \x1f; F = [size, writing mode, width, height, halign]
+		faces := []*canvas.FontFace{
+			env.TextFamily.Face(op.F[0], canvas.Black, canvas.FontRegular, canvas.FontNormal),
+			env.TextFamily.Face(op.F[0], canvas.Red, canvas.FontRegular, canvas.FontNormal),
+			env.TextFamily.Face(op.F[0]*1.5, canvas.Black, canvas.FontRegular, canvas.FontNormal),
+		}
+		rt := canvas.NewRichText(faces[0])
+		rt.SetWritingMode(canvas.WritingMode(int(op.F[1])))
+		for _, run := range strings.Split(op.S, "\x1f") {
+			rt.WriteFace(faces[int(run[0]-'0')], run[2:])
+		}
+		return canvas.VerifC20DumpText(rt.ToText(op.F[2], op.F[3], canvas.TextAlign(int(op.F[4])), canvas.Top, 0, 0))
 	case "SharedFontState":
 		// observable state of the ONE shared loaded font
 		f := env.Family.Face(10, canvas.Black, canvas.FontRegular, canvas.FontNormal).Font
